@@ -1,7 +1,7 @@
 (* Extraction of the C17 model and oracles for the correspondence check (ExtrOcamlBasic only;
    Z, positive, Q, nat stay Coq inductives; Flocq's proof arguments are erased). *)
 From Coq Require Import Extraction ExtrOcamlBasic.
-From Coq Require Import ZArith QArith List.
+From Coq Require Import ZArith List.
 From Flocq Require Import Core BinarySingleNaN.
 From DuneV Require Import C17_Model C17_Spec.
 Extraction Language OCaml.
@@ -12,7 +12,8 @@ Extraction "c17_model.ml"
   c17_isnan c17_isinf c17_isfinite c17_isunordered c17_visnan c17_visinf c17_visfinite
   c17_cisnan c17_cisinf c17_cisfinite
   c17_of_bits c17_to_bits c17_of_Z
-  c17_cmp_laws c17_spec_eqQ c17_eq_verdict c17_spec_veq c17_spec_trunc_ok c17_spec_round_ok c17_toQ c17_pow2Q
+  c17_cmp_laws c17_spec_eq_exact c17_eq_verdict c17_spec_veq c17_spec_trunc_ok c17_spec_round_ok c17_spec_trunc_ideal c17_spec_round_ideal c17_to_dy
+  c17_dy_floor c17_dy_mul c17_dy_sub c17_dy_abs c17_dy_leb c17_dy_eqb c17_dy_of_Z c17_dy_pow2
   c17_spec_power c17_spec_factorial c17_spec_binomial_fast c17_spec_sign c17_spec_int_ok
   c17_spec_any_nan c17_spec_any_inf c17_spec_all_finite
-  Z.div_eucl Z.pow Z.of_nat Qmult Qplus Qminus Qle_bool Qeq_bool Qabs.Qabs Qinv inject_Z.
+  Z.div_eucl Z.pow Z.of_nat.
